@@ -1,5 +1,5 @@
 // Harness over the header construction of the formatter; child of `crate::meta::header`.
-// @module-needs env header seg:F1
+// @module-needs env header seg:F1 seg:F2
 #![allow(dead_code, unused_imports)]
 use super::*;
 use crate::dev::verif_env::*;
@@ -39,3 +39,85 @@ fn c09_format_header() {
     kani::cover!(size < (1u64 << cb), "disk smaller than one cluster");
     core::mem::forget(env);
 }
+
+macro_rules! format_refcounts {
+    ($name:ident, $order:expr, $size:expr, $rtc:expr, $l1c:expr, $unw:expr) => {
+        #[kani::proof]
+        #[kani::unwind($unw)]
+        #[kani::stub(std::fmt::format, fmt_stub)]
+        fn $name() {
+            let env = KEnv::new(mk_info(16, 4, 1 << 30, 9, Some((9, 1024)), Some((9, 1024)), false, false, false));
+            let cb: u32 = 9;
+            let order: u32 = $order;
+            // table geometry exactly as format_qcow2 obtains it (decided against the spec by c09_meta_params)
+            let (rc_table, rc_blk, l1_table) = Qcow2Header::calculate_meta_params($size, cb as usize, order as u8, 512);
+            assert!(rc_table.1 == $rtc && rc_blk.1 == 1 && l1_table.1 == $l1c);
+            let r = env.seg_f2(cb as usize, order as u8, rc_table, rc_blk, l1_table);
+            let (rc_t, ref_b) = match r {
+                Ok(x) => x,
+                Err(e) => {
+                    core::mem::forget(e);
+                    assert!(false);
+                    return;
+                }
+            };
+            // an independent reader: refcount of host cluster j straight from the block's bytes
+            let bytes = unsafe { core::slice::from_raw_parts(ref_b.as_ptr() as *const u8, 512) };
+            let entries = spec::rb_entries(cb, order) as usize;
+            let j: usize = kani::any();
+            kani::assume(j < entries);
+            let got = spec::rc_get(bytes, order, j);
+            // header, refcount table clusters, the refcount block itself, L1 table clusters:
+            // contiguous from cluster 0, one reference each; everything else is free
+            let used = 1 + $rtc + 1 + $l1c;
+            assert!(rc_blk.0 == (1 + $rtc as u64) << cb && l1_table.0 == (2 + $rtc as u64) << cb);
+            if j < used { assert!(got == 1); } else { assert!(got == 0); }
+            // refcount table: entry 0 -> the block, every other entry empty
+            let i: usize = kani::any();
+            kani::assume(i < ($rtc as usize) * 64);
+            let e = rc_t.get(i).into_plain();
+            if i == 0 { assert!(e == rc_blk.0); } else { assert!(e == 0); }
+            kani::cover!(j == used - 1 && got == 1);
+            kani::cover!(j == $rtc + 1, "the refcount block's own cluster");
+            core::mem::forget(rc_t);
+            core::mem::forget(ref_b);
+            core::mem::forget(env);
+        }
+    };
+}
+
+// @harness c09_format_refcounts_rt1
+// @props C09 C03 C20
+// @tier quick
+// @cost 10
+// @timeout 900
+// @needs F2
+// @desc the statements of format_qcow2 that build the initial refcount table and refcount block (lifted verbatim), read back by the independent spec reader: every cluster of the header, the refcount table, the refcount block itself and the L1 table has refcount exactly 1, every other cluster 0 (checked at a symbolic cluster index), refcount-table entry 0 points at the block and all other entries are empty -- for a virtual size whose refcount table is ONE cluster
+// @bounds 512-byte clusters and blocks, 16-bit refcounts, virtual size 1 MiB + 512 (1 refcount-table cluster, 1 L1 cluster); all 256 counters of the block via a symbolic index
+// @funcs Qcow2Header::format_qcow2 (refcount construction) Qcow2Header::calculate_meta_params RefBlock::increment RefTable::set
+// @stub alloc::fmt::format -> String::new()
+format_refcounts!(c09_format_refcounts_rt1, 4, (1u64 << 20) + 512, 1, 1, 4);
+
+// @harness c09_format_refcounts_rt2
+// @props C09 C03 C20
+// @tier quick
+// @cost 10
+// @timeout 900
+// @needs F2
+// @desc as c09_format_refcounts_rt1 for a virtual size whose refcount table spans TWO clusters (the refcount block no longer sits in cluster 2)
+// @bounds 512-byte clusters and blocks, 16-bit refcounts, virtual size 8 MiB + 512 (2 refcount-table clusters, 5 L1 clusters)
+// @funcs Qcow2Header::format_qcow2 (refcount construction) Qcow2Header::calculate_meta_params RefBlock::increment RefTable::set
+// @stub alloc::fmt::format -> String::new()
+format_refcounts!(c09_format_refcounts_rt2, 4, (8u64 << 20) + 512, 2, 5, 7);
+
+// @harness c09_format_refcounts_rt2_o6
+// @props C09 C03 C20
+// @tier quick
+// @cost 10
+// @timeout 900
+// @needs F2
+// @desc as c09_format_refcounts_rt2 with 64-bit refcounts (64 counters per block)
+// @bounds 512-byte clusters and blocks, 64-bit refcounts, virtual size 2 MiB + 512 (2 refcount-table clusters, 2 L1 clusters)
+// @funcs Qcow2Header::format_qcow2 (refcount construction) Qcow2Header::calculate_meta_params RefBlock::increment RefTable::set
+// @stub alloc::fmt::format -> String::new()
+format_refcounts!(c09_format_refcounts_rt2_o6, 6, (2u64 << 20) + 512, 2, 2, 4);
